@@ -50,6 +50,15 @@ Proof.
     + eapply IH; eassumption.
 Qed.
 
+Lemma Sorted_firstn S n : Sorted ext_le S -> Sorted ext_le (firstn n S).
+Proof.
+  intro H. apply StronglySorted_Sorted. apply (Sorted_StronglySorted ext_le_trans) in H.
+  revert n. induction H as [|a l Hs IH Ha]; intros [|n]; cbn; try constructor.
+  - apply IH.
+  - rewrite Forall_forall. intros x Hx. rewrite Forall_forall in Ha. apply Ha.
+    rewrite <- (firstn_skipn n l). apply in_or_app; left; exact Hx.
+Qed.
+
 (* a sorted list followed by +inf's is sorted *)
 Lemma Sorted_app_Inf S k : Sorted ext_le S -> Sorted ext_le (S ++ repeat Inf k).
 Proof.
@@ -210,13 +219,13 @@ Proof.
   - f_equal. rewrite IH. do 2 f_equal. f_equal. lia.
 Qed.
 
+Lemma combine_map_l {A B B'} (f : B -> B') (n : list B) (l : list A) :
+  combine (map f n) l = map (fun pc => (f (fst pc), snd pc)) (combine n l).
+Proof. revert l; induction n as [|i n IH]; intros [|x l]; cbn; try reflexivity. f_equal. apply IH. Qed.
+
 Lemma combine_seq_shift {A} (l : list A) s :
   combine (seq s (length l)) l = map (fun pc => (s + fst pc, snd pc)) (combine (seq 0 (length l)) l).
-Proof.
-  rewrite (seq_shift_map s). rewrite <- (map_id l) at 2 3.
-  generalize (seq 0 (length l)). intro n. revert n. induction l as [|x l IH]; intros [|i n]; cbn; try reflexivity.
-  f_equal. rewrite map_id in *. apply IH.
-Qed.
+Proof. rewrite (seq_shift_map s). apply combine_map_l. Qed.
 
 Lemma map_snd_combine_seq' {A} (l : list A) s : map snd (combine (seq s (length l)) l) = l.
 Proof. revert s; induction l as [|x l IH]; intro s; cbn; [reflexivity|]. f_equal. apply IH. Qed.
@@ -229,6 +238,29 @@ Proof.
   - injection H as -> ->. split; [lia|]. rewrite Nat.sub_diag. reflexivity.
   - apply IH in H. destruct H as [H1 H2]. split; [lia|].
     replace (i - s) with (S (i - S s)) by lia. exact H2.
+Qed.
+
+Lemma nth_error_combine_seq {A} (l : list A) s i c :
+  nth_error l i = Some c -> In (s + i, c) (combine (seq s (length l)) l).
+Proof.
+  revert s i; induction l as [|x l IH]; intros s [|i] H; cbn in H; try discriminate.
+  - injection H as ->. left. f_equal. lia.
+  - cbn [length seq combine]. right. replace (s + S i) with (S s + i) by lia. apply IH. exact H.
+Qed.
+
+Lemma nth_error_map2_some {A B C} (f : A -> B -> C) a b i x y :
+  nth_error a i = Some x -> nth_error b i = Some y -> nth_error (map2 f a b) i = Some (f x y).
+Proof.
+  revert b i; induction a as [|x' a IH]; intros [|y' b] [|i] H1 H2; cbn in *; try discriminate.
+  - injection H1 as ->. injection H2 as ->. reflexivity.
+  - apply IH; assumption.
+Qed.
+
+Lemma NoDup_app_l {A} (a b : list A) : NoDup (a ++ b) -> NoDup a.
+Proof.
+  induction a as [|x a IH]; cbn; intro H; [constructor|].
+  inversion H as [|? ? Hx Hn]; subst. constructor; [|apply IH, Hn].
+  intro K. apply Hx. apply in_or_app; left; exact K.
 Qed.
 
 Section Structure.
@@ -278,7 +310,7 @@ Lemma universe_entries cases :
 Proof.
   unfold universe. rewrite map_app. f_equal.
   - induction k as [|n IH]; cbn; [reflexivity | f_equal; exact IH].
-  - rewrite all_new_chunks, map_map. reflexivity.
+  - rewrite all_new_chunks, map_map. cbn [Nat.mul]. apply map_ext. intros [i c]. reflexivity.
 Qed.
 
 Lemma universe_keys cases :
@@ -287,7 +319,9 @@ Proof.
   unfold universe. rewrite map_app. f_equal.
   - induction k as [|n IH]; cbn; [reflexivity | f_equal; exact IH].
   - rewrite map_map. unfold Spec.slot_key. cbn [Spec.slot_entry fst].
-    rewrite <- (map_snd_combine_seq' cases 0) at 2. rewrite map_map. apply map_ext. intros [i c]; reflexivity.
+    transitivity (map key (map snd (combine (seq 0 (length cases)) cases))).
+    + rewrite map_map. apply map_ext. intros [i c]; reflexivity.
+    + rewrite map_snd_combine_seq'. reflexivity.
 Qed.
 
 (* T2 + T3: the result is the image of a list of slots T1 that is part of the universe (k fills, every case
@@ -325,11 +359,7 @@ Proof.
   - apply (Permutation_in _ Hall). rewrite <- H2, map_map. apply (in_map slot_key) in Hb. exact Hb.
 Qed.
 
-(* the case numbers of a list of slots *)
-Definition slot_cases (T : list (@slot C)) : list nat :=
-  flat_map (fun s => match s with Some (i, _) => [i] | None => [] end) T.
-
-Lemma slot_cases_universe cases : slot_cases (universe k cases) = seq 0 (length cases).
+Lemma slot_cases_universe (cases : list C) : slot_cases (universe k cases) = seq 0 (length cases).
 Proof.
   unfold slot_cases, universe. rewrite flat_map_app.
   replace (flat_map _ (repeat None k)) with (@nil nat) by (induction k as [|n IH]; cbn; auto).
@@ -339,18 +369,18 @@ Proof.
 Qed.
 
 (* no case is returned twice *)
-Theorem structure_nodup cases T1 T2 :
+Theorem structure_nodup (cases : list C) T1 T2 :
   Permutation (T1 ++ T2) (universe k cases) -> NoDup (slot_cases T1).
 Proof.
   intro H. apply (Permutation_flat_map (fun s : @slot C => match s with Some (i, _) => [i] | None => [] end)) in H.
-  fold (slot_cases (T1 ++ T2)) in H. fold (slot_cases (universe k cases)) in H.
+  change (Permutation (slot_cases (T1 ++ T2)) (slot_cases (universe k cases))) in H.
   rewrite slot_cases_universe in H. unfold slot_cases in H. rewrite flat_map_app in H.
-  apply Permutation_sym in H. apply (Permutation_NoDup H) in H as Hn; [|apply seq_NoDup].
-  apply NoDup_app_remove_r in Hn. exact Hn.
+  apply Permutation_sym in H. pose proof (Permutation_NoDup H (seq_NoDup _ _)) as Hn.
+  apply NoDup_app_l in Hn. exact Hn.
 Qed.
 
 (* every slot of the universe is a fill or a genuine (number, case) pair *)
-Lemma universe_in cases s : In s (universe k cases) ->
+Lemma universe_in (cases : list C) (s : @slot C) : In s (universe k cases) ->
   s = None \/ exists i c, s = Some (i, c) /\ nth_error cases i = Some c.
 Proof.
   unfold universe. intro H. apply in_app_or in H. destruct H as [H|H].
@@ -360,3 +390,241 @@ Proof.
     rewrite Nat.sub_0_r in Hin. apply Hin.
 Qed.
 End Structure.
+
+(* ------------------------------------------------------------------ dataset_gather *)
+Lemma nth_error_nil {A} i : nth_error (@nil A) i = None.
+Proof. destruct i; reflexivity. Qed.
+
+Lemma nth_error_firstn_lt {A} (l : list A) n i : i < n -> nth_error (firstn n l) i = nth_error l i.
+Proof.
+  revert l i; induction n as [|n IH]; intros l i H; [lia|].
+  destruct l as [|x l]; [reflexivity|]. destruct i as [|i]; [reflexivity|]. cbn. apply IH. lia.
+Qed.
+
+Lemma nth_error_skipn' {A} (l : list A) n i : nth_error (skipn n l) i = nth_error l (n + i).
+Proof.
+  revert l; induction n as [|n IH]; intro l; [reflexivity|].
+  destruct l as [|x l]; [cbn; rewrite nth_error_nil; reflexivity|]. cbn. apply IH.
+Qed.
+
+Lemma nth_error_z_nat {A} (l : list A) i : nth_error_z l (Z.of_nat i) = nth_error l i.
+Proof.
+  unfold nth_error_z. rewrite <- (Nat2Z.id i) at 2.
+  destruct (Z.of_nat i) eqn:E; try reflexivity. pose proof (Nat2Z.is_nonneg i). lia.
+Qed.
+
+Lemma gather_from_chunks {A} B (l : list A) : 1 <= B -> forall b0 i,
+  gather_from b0 (chunks B l) (Z.of_nat (b0 + i / B), Z.of_nat (i mod B)) = nth_error l i.
+Proof.
+  intro HB. pattern l. apply (chunks_ind _ B HB); clear l.
+  - intros b0 i. cbn. rewrite nth_error_nil. reflexivity.
+  - intros l Hl IH b0 i. rewrite chunks_cons_step by assumption. cbn [gather_from fst snd].
+    destruct (Nat.lt_ge_cases i B) as [Hlt|Hge].
+    + rewrite Nat.div_small, Nat.mod_small by exact Hlt. rewrite Nat.add_0_r, Z.eqb_refl.
+      rewrite nth_error_z_nat. apply nth_error_firstn_lt. exact Hlt.
+    + assert (Hi : i = 1 * B + (i - B)) by lia. set (j := i - B) in *. rewrite Hi.
+      rewrite Nat.div_add_l by lia.
+      replace (1 * B + j) with (j + 1 * B) at 2 by lia. rewrite Nat.mod_add by lia.
+      destruct (Z.eqb_spec (Z.of_nat (b0 + (1 + j / B))) (Z.of_nat b0)) as [E|_]; [lia|].
+      replace (b0 + (1 + j / B)) with (S b0 + j / B) by lia. rewrite IH.
+      rewrite nth_error_skipn'. f_equal. lia.
+Qed.
+
+(* the element returned for index (i / B, i mod B) is element number i of the un-batched data *)
+Theorem dataset_gather_correct {A} B (l : list A) i : 1 <= B ->
+  dataset_gather (chunks B l) (Z.of_nat (i / B), Z.of_nat (i mod B)) = nth_error l i.
+Proof. intro HB. unfold dataset_gather. apply (gather_from_chunks B l HB 0 i). Qed.
+
+Theorem dataset_gather_fill {A} (batches : list (list A)) : dataset_gather batches fill_idx = None.
+Proof.
+  unfold dataset_gather. generalize 0. induction batches as [|c r IH]; intro b; [reflexivity|].
+  cbn [gather_from]. unfold fill_idx at 1. cbn [fst].
+  destruct (Z.eqb_spec (-1) (Z.of_nat b)) as [E|_]; [lia | apply IH].
+Qed.
+
+(* ------------------------------------------------------------------ batch-wise projection = projection *)
+Lemma map2_nil_r {A B C} (f : A -> B -> C) a : map2 f a [] = [].
+Proof. destruct a; reflexivity. Qed.
+
+Lemma map2_firstn_skipn {A B C} (f : A -> B -> C) n a b :
+  map2 f (firstn n a) (firstn n b) ++ map2 f (skipn n a) (skipn n b) = map2 f a b.
+Proof.
+  revert a b; induction n as [|n IH]; intros a b; [reflexivity|].
+  destruct a as [|x a]; [reflexivity|]. destruct b as [|y b]; [cbn; apply map2_nil_r|].
+  cbn. f_equal. apply IH.
+Qed.
+
+Lemma map2_chunks {A B C} (f : A -> B -> C) Bs a : 1 <= Bs -> forall b, length a = length b ->
+  concat (map2 (map2 f) (chunks Bs a) (chunks Bs b)) = map2 f a b.
+Proof.
+  intro HB. pattern a. apply (chunks_ind _ Bs HB); clear a.
+  - intros b _. reflexivity.
+  - intros a Ha IH b Hlen.
+    assert (Hb : b <> []) by (destruct a, b; cbn in *; congruence).
+    rewrite (chunks_cons_step Bs a), (chunks_cons_step Bs b) by assumption.
+    cbn [map2 concat]. rewrite IH by (rewrite !skipn_length; lia). apply map2_firstn_skipn.
+Qed.
+
+Lemma nth_error_map2 {A B C} (f : A -> B -> C) a b i z :
+  nth_error (map2 f a b) i = Some z ->
+  exists x y, nth_error a i = Some x /\ nth_error b i = Some y /\ z = f x y.
+Proof.
+  revert b i; induction a as [|x a IH]; intros [|y b] [|i] H; cbn in H; try discriminate.
+  - injection H as <-. exists x, y. repeat split; reflexivity.
+  - apply IH in H. exact H.
+Qed.
+
+(* ------------------------------------------------------------------ SimilarExamples *)
+Definition bs_ok' (bs : option nat) : Prop := match bs with Some b => 1 <= b | None => True end.
+
+Lemma eff_batch_pos bs n : bs_ok' bs -> 1 <= n -> 1 <= eff_batch bs n.
+Proof. destruct bs as [b|]; cbn; intros; lia. Qed.
+
+Section SimilarProofs.
+Variable argsort : list ext -> list nat.
+Hypothesis Hargsort : argsort_ok argsort.
+Variable dist : list Qc -> list Qc -> Qc.
+Variable proj : list Qc -> list Qc -> list Qc.
+Context {L : Type}.
+Variables (k : nat) (bs : option nat) (cases targets : list (list Qc)) (labels : list L) (q tq : list Qc).
+Hypothesis Hbs : bs_ok' bs.
+Hypothesis Hcases : 1 <= length cases.
+Hypothesis Htargets : length targets = length cases.
+
+Let B := eff_batch bs (length cases).
+Let pcases := map2 proj cases targets.
+Let found := knn_search argsort dist k B (chunks B pcases) (proj q tq).
+
+Lemma HB : 1 <= B.
+Proof. apply eff_batch_pos; assumption. Qed.
+
+Lemma project_dataset_flat : project_dataset proj B cases targets = chunks B pcases.
+Proof. unfold project_dataset. rewrite map2_chunks by (apply HB || (symmetry; exact Htargets)). reflexivity. Qed.
+
+Lemma similar_one_found :
+  similar_one argsort dist proj k bs cases targets labels q tq
+  = map (fun e => {| ex_dist := fst e; ex_idx := snd e;
+                     ex_case := dataset_gather (chunks B cases) (snd e);
+                     ex_label := dataset_gather (chunks B labels) (snd e) |}) found.
+Proof. unfold similar_one. fold B. rewrite project_dataset_flat. reflexivity. Qed.
+
+Lemma keys_pcases : map (fun c => Fin (dist (proj q tq) c)) pcases = true_keys dist proj cases targets q tq.
+Proof. unfold pcases, true_keys. exact (map_map2 (fun c => Fin (dist (proj q tq) c)) proj cases targets). Qed.
+
+(* the returned distances are the k smallest true distances in the projected space *)
+Theorem similar_distances :
+  nearest_keys k (true_keys dist proj cases targets q tq)
+               (map (@ex_dist L) (similar_one argsort dist proj k bs cases targets labels q tq)).
+Proof.
+  rewrite similar_one_found, map_map. cbn [ex_dist]. rewrite <- keys_pcases.
+  apply (topk_keys argsort Hargsort k _ idx_pay fill_idx B pcases HB).
+Qed.
+
+Theorem similar_distances_closed :
+  map (@ex_dist L) (similar_one argsort dist proj k bs cases targets labels q tq)
+  = firstn k (isort (true_keys dist proj cases targets q tq) ++ repeat Inf k).
+Proof.
+  apply similar_distances. split.
+  - apply Sorted_app_Inf, isort_sorted.
+  - apply Permutation_app_tail, isort_perm.
+Qed.
+
+Theorem similar_sorted :
+  Sorted ext_le (map (@ex_dist L) (similar_one argsort dist proj k bs cases targets labels q tq))
+  /\ length (similar_one argsort dist proj k bs cases targets labels q tq) = k.
+Proof.
+  split.
+  - rewrite similar_distances_closed. apply Sorted_firstn, Sorted_app_Inf, isort_sorted.
+  - rewrite similar_one_found, map_length. apply topk_length. exact Hargsort.
+Qed.
+
+(* with k <= N no slot is a fill: all returned distances are finite *)
+Theorem similar_all_finite : k <= length cases ->
+  map (@ex_dist L) (similar_one argsort dist proj k bs cases targets labels q tq)
+  = firstn k (isort (true_keys dist proj cases targets q tq))
+  /\ Forall (fun d => is_fin d = true) (map (@ex_dist L) (similar_one argsort dist proj k bs cases targets labels q tq)).
+Proof.
+  intro Hk. rewrite similar_distances_closed.
+  set (tk := true_keys dist proj cases targets q tq).
+  assert (Hlen : length (isort tk) = length cases).
+  { rewrite (Permutation_length (isort_perm tk)). unfold tk, true_keys. rewrite map2_length. lia. }
+  rewrite firstn_app. replace (k - length (isort tk)) with 0 by lia. cbn [firstn]. rewrite app_nil_r.
+  split; [reflexivity|]. rewrite Forall_forall. intros d Hd.
+  rewrite <- (firstn_skipn k (isort tk)) in Hlen.
+  assert (Hin : In d tk).
+  { apply (Permutation_in _ (isort_perm tk)). rewrite <- (firstn_skipn k (isort tk)). apply in_or_app; left; exact Hd. }
+  unfold tk, true_keys in Hin. rewrite map2_combine in Hin. apply in_map_iff in Hin.
+  destruct Hin as [p [<- _]]. reflexivity.
+Qed.
+
+(* every returned example is a fill, or the ORIGINAL case number i with its label, found at index
+   (i / B, i mod B), with the true distance between the projected query and the projected case *)
+Theorem similar_examples_spec e :
+  In e (similar_one argsort dist proj k bs cases targets labels q tq) ->
+  (ex_dist e = Inf /\ ex_idx e = fill_idx /\ ex_case e = None /\ ex_label e = None)
+  \/ exists i c t,
+       nth_error cases i = Some c /\ nth_error targets i = Some t
+       /\ ex_idx e = (Z.of_nat (i / B), Z.of_nat (i mod B)) /\ i mod B < B
+       /\ ex_dist e = Fin (dist (proj q tq) (proj c t))
+       /\ ex_case e = Some c /\ ex_label e = nth_error labels i.
+Proof.
+  rewrite similar_one_found. intro Hin. apply in_map_iff in Hin. destruct Hin as [en [<- Hen]].
+  destruct (topk_structure argsort Hargsort k (fun c => Fin (dist (proj q tq) c)) idx_pay fill_idx B HB pcases)
+    as [T1 [T2 [HU [Hres _]]]].
+  unfold found, knn_search in Hen. rewrite Hres in Hen. apply in_map_iff in Hen. destruct Hen as [s [<- Hs]].
+  assert (HsU : In s (universe k pcases)) by (apply (Permutation_in _ HU), in_or_app; left; exact Hs).
+  apply universe_in in HsU. destruct HsU as [->|[i [c' [-> Hnth]]]].
+  - left. cbn. rewrite !dataset_gather_fill. repeat split; reflexivity.
+  - right. apply nth_error_map2 in Hnth. destruct Hnth as [c [t [Hc [Ht ->]]]].
+    exists i, c, t. cbn [slot_entry ex_dist ex_idx ex_case ex_label fst snd idx_pay].
+    unfold idx_pay. rewrite !dataset_gather_correct by apply HB. rewrite Hc.
+    repeat split; try assumption; try reflexivity. apply Nat.mod_upper_bound. pose proof HB; lia.
+Qed.
+
+(* the returned set is exactly a set of k nearest cases: no case is returned twice and every case that is
+   not returned is at least as far as every returned one *)
+Theorem similar_minimal :
+  exists T1 T2 : list (@slot (list Qc)),
+    Permutation (T1 ++ T2) (universe k pcases)
+    /\ found = map (slot_entry (fun c => Fin (dist (proj q tq) c)) idx_pay fill_idx B) T1
+    /\ NoDup (slot_cases T1)
+    /\ forall a b, In a T1 -> In b T2 ->
+         ext_le (slot_key (fun c => Fin (dist (proj q tq) c)) idx_pay fill_idx B a)
+                (slot_key (fun c => Fin (dist (proj q tq) c)) idx_pay fill_idx B b).
+Proof.
+  destruct (topk_structure argsort Hargsort k (fun c => Fin (dist (proj q tq) c)) idx_pay fill_idx B HB pcases)
+    as [T1 [T2 [HU [Hres [_ Hmin]]]]].
+  exists T1, T2. repeat split; try assumption. eapply structure_nodup; exact HU.
+Qed.
+
+(* readable form: a case is either returned (its index appears) or at least as far as every returned one *)
+Theorem similar_minimal_cases i c t :
+  nth_error cases i = Some c -> nth_error targets i = Some t ->
+  (exists e, In e (similar_one argsort dist proj k bs cases targets labels q tq)
+             /\ ex_idx e = (Z.of_nat (i / B), Z.of_nat (i mod B)))
+  \/ (forall e, In e (similar_one argsort dist proj k bs cases targets labels q tq) ->
+                ext_le (ex_dist e) (Fin (dist (proj q tq) (proj c t)))).
+Proof.
+  intros Hc Ht. rewrite similar_one_found.
+  destruct similar_minimal as [T1 [T2 [HU [Hres [_ Hmin]]]]].
+  assert (Hin : In (Some (i, proj c t)) (T1 ++ T2)).
+  { apply (Permutation_in _ (Permutation_sym HU)). unfold universe. apply in_or_app; right.
+    apply in_map. apply (nth_error_combine_seq pcases 0 i). unfold pcases.
+    apply nth_error_map2_some; assumption. }
+  apply in_app_or in Hin. destruct Hin as [Hin|Hin].
+  - left. eexists. split.
+    + apply in_map. rewrite Hres. apply in_map. exact Hin.
+    + reflexivity.
+  - right. intros e He. apply in_map_iff in He. destruct He as [en [<- Hen]].
+    rewrite Hres in Hen. apply in_map_iff in Hen. destruct Hen as [a [<- Ha]].
+    exact (Hmin a _ Ha Hin).
+Qed.
+End SimilarProofs.
+
+(* the distances do not depend on the batch size *)
+Theorem similar_batch_invariant argsort argsort' dist proj {L} k bs bs' cases targets (labels : list L) q tq :
+  argsort_ok argsort -> argsort_ok argsort' -> bs_ok' bs -> bs_ok' bs' -> 1 <= length cases ->
+  length targets = length cases ->
+  map (@ex_dist L) (similar_one argsort dist proj k bs cases targets labels q tq)
+  = map (@ex_dist L) (similar_one argsort' dist proj k bs' cases targets labels q tq).
+Proof. intros. rewrite !similar_distances_closed by assumption. reflexivity. Qed.
